@@ -194,6 +194,22 @@ def gen_cases(rng, tier):
         c["npol"] = rng.choice([1, 2])
         c["noise"] = rng.random() < 0.5
         cases.append(c)
+    # every invalid r / T / R_load value crossed with EVERY include_noise selection (random letter case) and 1/2 polarisations:
+    # the documented error does not depend on which noise terms were asked for
+    invalid = [("r", _py("float", 0.0)), ("r", _py("float", -0.5)), ("r", _py("float", 1.5)), ("r", _py("int", 2)), ("r", _py("none")),
+               ("r", _py("str", "1")), ("T", _py("int", -1)), ("T", _py("float", -1e-9)), ("T", _py("float", -300.0)), ("T", _py("none")),
+               ("T", _py("str", "300")), ("R_load", _py("float", -1.0)), ("R_load", _py("int", -50)), ("R_load", _py("none")),
+               ("R_load", _py("list", [50.0]))]
+    for opt in OPTIONS:
+        for name, v in invalid:
+            c = dict(base)
+            c[name] = v
+            c["sel"] = _py("str", _recase(rng, opt))
+            c["npol"] = rng.choice([1, 2])
+            c["noise"] = rng.random() < 0.5
+            c["seed"] = rng.getrandbits(32)
+            c["np_seed"] = rng.getrandbits(31)
+            cases.append(c)
     # two invalid arguments at once: the order of the checks
     for a, b in [("r", "T"), ("T", "R_load"), ("R_load", "sel"), ("r", "sel"), ("input", "r")]:
         c = dict(base)
